@@ -1,5 +1,5 @@
 SPECIFICATION Spec
-CONSTANTS Writers = {1, 2} Readers = {3, 4} NAppends = 2 NChunks = 2 NReads = 2 AllowCrash = FALSE AllowTakeover = FALSE DropTornTail = TRUE
+CONSTANTS Writers = {1, 2} Readers = {3, 4} NAppends = 2 NChunks = 2 NReads = 1 AllowCrash = FALSE AllowTakeover = FALSE DropTornTail = TRUE
 INVARIANT MutualExclusion
 INVARIANT LogIntactInv
 INVARIANT NoBadObservation
